@@ -212,6 +212,7 @@ func normalizeNewHelpers(p *Program, ref []invEntry) map[string][]byte {
 			}
 		}
 		// call sites
+		nSites, nInlined := map[types.Object]int{}, map[types.Object]int{}
 		for _, f := range pk.Syntax {
 			fname := p.Fset.Position(f.Pos()).Filename
 			var sites []*ast.CallExpr
@@ -243,6 +244,7 @@ func normalizeNewHelpers(p *Program, ref []invEntry) map[string][]byte {
 					id = fun.Sel
 				}
 				c := candByObj[pk.TypesInfo.Uses[id]]
+				nSites[c.obj]++
 				// do not inline inside another candidate's body (it is inlined where that candidate is called, next round)
 				inCand := false
 				for _, oc := range candByObj {
@@ -270,8 +272,23 @@ func normalizeNewHelpers(p *Program, ref []invEntry) map[string][]byte {
 					continue
 				}
 				editsByFile[fname] = append(editsByFile[fname], ed)
+				nInlined[c.obj]++
 				normalizeNotes = append(normalizeNotes, fmt.Sprintf("new function %s.%s (not in the reference inventory) inlined at its call site %s for the analysis", relOrRoot(pk.PkgPath), c.obj.Name(), p.pos(call.Pos())))
 			}
+		}
+		// a helper whose every call was inlined no longer exists for the analysis: its declaration is removed from
+		// the overlay (it would otherwise be analysed as a free-standing function)
+		for obj, c := range candByObj {
+			if nSites[obj] == 0 || nSites[obj] != nInlined[obj] {
+				continue
+			}
+			tf := p.Fset.File(c.fd.Pos())
+			start := c.fd.Pos()
+			if c.fd.Doc != nil {
+				start = c.fd.Doc.Pos()
+			}
+			fname := tf.Name()
+			editsByFile[fname] = append(editsByFile[fname], textEdit{start: tf.Offset(start), end: tf.Offset(c.fd.End()), text: ""})
 		}
 	}
 	if len(editsByFile) == 0 {
@@ -409,6 +426,7 @@ func inlineSite(p *Program, pk *packages.Package, f *ast.File, call *ast.CallExp
 	}
 	// how is the call used?
 	isWhole := func(e ast.Expr) bool { return ast.Unparen(e) == ast.Expr(call) }
+	mode, errName, thenText := "general", "", ""
 	var after string // statement(s) to emit after the inlined block, using the result temporaries
 	resList := strings.Join(resNames, ", ")
 	switch s := stmt.(type) {
@@ -438,6 +456,9 @@ func inlineSite(p *Program, pk *packages.Package, f *ast.File, call *ast.CallExp
 			return textEdit{}, "call is not the whole returned expression"
 		}
 		after = "return " + resList
+		if !hasNamedResults(fd) {
+			mode = "tailreturn" // `return helper(...)`: the helper's own returns become the caller's
+		}
 	case *ast.IfStmt:
 		as, ok := s.Init.(*ast.AssignStmt)
 		if !ok || len(as.Rhs) != 1 || !isWhole(as.Rhs[0]) || len(as.Lhs) != len(resNames) {
@@ -453,6 +474,18 @@ func inlineSite(p *Program, pk *packages.Package, f *ast.File, call *ast.CallExp
 		// { <inlined>; if lhs := temps; cond {...} else {...} }
 		rest := string(src[tfile.Offset(s.Cond.Pos()):tfile.Offset(s.End())])
 		after = "if " + strings.Join(lhs, ", ") + " " + as.Tok.String() + " " + resList + "; " + rest
+		// `if err := helper(...); err != nil { S }`: keep the idiom, one test per return of the helper
+		if id, ok := as.Lhs[0].(*ast.Ident); ok && len(as.Lhs) == 1 && as.Tok == token.DEFINE && s.Else == nil && !hasNamedResults(fd) {
+			if be, ok := s.Cond.(*ast.BinaryExpr); ok && be.Op == token.NEQ {
+				if x, ok := be.X.(*ast.Ident); ok && x.Name == id.Name {
+					if y, ok := be.Y.(*ast.Ident); ok && y.Name == "nil" && !thenBodyShadowed(pk, s.Body, fd, id.Name) {
+						mode = "iferr"
+						errName = id.Name
+						thenText = txt(s.Body)
+					}
+				}
+			}
+		}
 	default:
 		return textEdit{}, fmt.Sprintf("statement form %T", stmt)
 	}
@@ -537,6 +570,7 @@ func inlineSite(p *Program, pk *packages.Package, f *ast.File, call *ast.CallExp
 	}
 	// body with returns rewritten
 	label := pre + "L"
+	thenMarker := pre + "THEN"
 	bodySrc := calleeBodyText(fset, fd)
 	nf, err := parser.ParseFile(token.NewFileSet(), "inl.go", "package p\nfunc _() "+bodySrc+"\n", parser.SkipObjectResolution)
 	if err != nil {
@@ -556,11 +590,72 @@ func inlineSite(p *Program, pk *packages.Package, f *ast.File, call *ast.CallExp
 		return textEdit{}, "partly named results"
 	}
 	failed := ""
+	var errTypeExpr ast.Expr
+	if mode == "iferr" {
+		errTypeExpr, err = parser.ParseExpr(resTypes[0])
+		if err != nil {
+			mode = "general"
+		}
+	}
+	// returns of the form `if e != nil { ...; return e }`
+	guardedReturns := map[*ast.ReturnStmt]bool{}
+	ast.Inspect(nfd.Body, func(n ast.Node) bool {
+		iff, ok := n.(*ast.IfStmt)
+		if !ok {
+			return true
+		}
+		be, ok := iff.Cond.(*ast.BinaryExpr)
+		if !ok || be.Op != token.NEQ {
+			return true
+		}
+		x, ok1 := be.X.(*ast.Ident)
+		y, ok2 := be.Y.(*ast.Ident)
+		if !ok1 || !ok2 || y.Name != "nil" || len(iff.Body.List) == 0 {
+			return true
+		}
+		// the guarded variable must not be reassigned before the return: only accept a body made of that return alone
+		if ret, ok := iff.Body.List[len(iff.Body.List)-1].(*ast.ReturnStmt); ok && len(iff.Body.List) == 1 && len(ret.Results) == 1 {
+			if rid, ok := ret.Results[0].(*ast.Ident); ok && rid.Name == x.Name {
+				guardedReturns[ret] = true
+			}
+		}
+		return true
+	})
 	astutil.Apply(nfd.Body, func(c *astutil.Cursor) bool {
 		switch x := c.Node().(type) {
 		case *ast.FuncLit:
 			return false
 		case *ast.ReturnStmt:
+			if mode == "tailreturn" {
+				return false
+			}
+			if mode == "iferr" {
+				if len(x.Results) != 1 {
+					failed = "return arity"
+					return false
+				}
+				brk := &ast.BranchStmt{Tok: token.BREAK, Label: ast.NewIdent(label)}
+				if id, ok := x.Results[0].(*ast.Ident); ok && id.Name == "nil" {
+					// `return nil`: the caller's error branch is not taken
+					c.Replace(&ast.BlockStmt{List: []ast.Stmt{brk}})
+					return false
+				}
+				if guardedReturns[x] {
+					// `if e != nil { return e }`: the caller's error branch is taken, no second test
+					c.Replace(&ast.BlockStmt{List: []ast.Stmt{
+						&ast.DeclStmt{Decl: &ast.GenDecl{Tok: token.VAR, Specs: []ast.Spec{&ast.ValueSpec{Names: []*ast.Ident{ast.NewIdent(errName)}, Type: errTypeExpr, Values: x.Results}}}},
+						&ast.ExprStmt{X: ast.NewIdent(thenMarker + "U")},
+						brk,
+					}})
+					return false
+				}
+				c.Replace(&ast.BlockStmt{List: []ast.Stmt{
+					&ast.DeclStmt{Decl: &ast.GenDecl{Tok: token.VAR, Specs: []ast.Spec{&ast.ValueSpec{Names: []*ast.Ident{ast.NewIdent(errName)}, Type: errTypeExpr, Values: x.Results}}}},
+					&ast.ExprStmt{X: ast.NewIdent(thenMarker)},
+					&ast.BranchStmt{Tok: token.BREAK, Label: ast.NewIdent(label)},
+				}})
+				return false
+			}
 			var stmts []ast.Stmt
 			switch {
 			case len(resNames) == 0:
@@ -591,8 +686,15 @@ func inlineSite(p *Program, pk *packages.Package, f *ast.File, call *ast.CallExp
 	}
 	// assemble
 	var out strings.Builder
-	for i := range resNames {
-		fmt.Fprintf(&out, "var %s %s\n", resNames[i], resTypes[i])
+	bodyText := body.String()
+	if mode == "iferr" {
+		bodyText = strings.ReplaceAll(bodyText, thenMarker+"U", thenText)
+		bodyText = strings.ReplaceAll(bodyText, thenMarker, "if "+errName+" != nil "+thenText)
+	}
+	if mode == "general" {
+		for i := range resNames {
+			fmt.Fprintf(&out, "var %s %s\n", resNames[i], resTypes[i])
+		}
 	}
 	out.WriteString("{\n")
 	var tmpNames, prmNames []string
@@ -617,16 +719,23 @@ func inlineSite(p *Program, pk *packages.Package, f *ast.File, call *ast.CallExp
 			fmt.Fprintf(&out, "var %s %s\n_ = %s\n", nm, resTypes[i], nm)
 		}
 	}
-	fmt.Fprintf(&out, "%s:\nfor {\n%s\n", label, body.String())
-	if len(named) > 0 {
-		fmt.Fprintf(&out, "%s = %s\n", strings.Join(resNames, ", "), strings.Join(named, ", "))
+	switch mode {
+	case "tailreturn":
+		fmt.Fprintf(&out, "%s\n}\n}\n", bodyText)
+	case "iferr":
+		fmt.Fprintf(&out, "%s:\nfor {\n%s\nbreak %s\n}\n}\n}\n", label, bodyText, label)
+	default:
+		fmt.Fprintf(&out, "%s:\nfor {\n%s\n", label, bodyText)
+		if len(named) > 0 {
+			fmt.Fprintf(&out, "%s = %s\n", strings.Join(resNames, ", "), strings.Join(named, ", "))
+		}
+		fmt.Fprintf(&out, "break %s\n}\n}\n}\n", label)
+		for _, rn := range resNames {
+			fmt.Fprintf(&out, "_ = %s\n", rn)
+		}
+		out.WriteString(after)
+		out.WriteString("\n")
 	}
-	fmt.Fprintf(&out, "break %s\n}\n}\n}\n", label)
-	for _, rn := range resNames {
-		fmt.Fprintf(&out, "_ = %s\n", rn)
-	}
-	out.WriteString(after)
-	out.WriteString("\n")
 	tf := fset.File(stmt.Pos())
 	return textEdit{start: tf.Offset(stmt.Pos()), end: tf.Offset(stmt.End()), text: out.String()}, ""
 }
@@ -665,4 +774,64 @@ func calleeBodyText(fset *token.FileSet, fd *ast.FuncDecl) string {
 		return nodeText(fset, fd.Body)
 	}
 	return string(b[tf.Offset(fd.Body.Pos()):tf.Offset(fd.Body.End())])
+}
+
+func hasNamedResults(fd *ast.FuncDecl) bool {
+	if fd.Type.Results == nil {
+		return false
+	}
+	for _, f := range fd.Type.Results.List {
+		if len(f.Names) > 0 {
+			return true
+		}
+	}
+	return false
+}
+
+// thenBodyShadowed: the then-block of the caller's `if err := helper(); err != nil { ... }` mentions a local of the
+// caller whose name the helper also declares (parameter, receiver or local): copying the block into the helper's
+// body would rebind it.
+func thenBodyShadowed(pk *packages.Package, then *ast.BlockStmt, fd *ast.FuncDecl, errName string) bool {
+	declared := map[string]bool{}
+	ast.Inspect(fd, func(n ast.Node) bool {
+		if id, ok := n.(*ast.Ident); ok {
+			if pk.TypesInfo.Defs[id] != nil {
+				declared[id.Name] = true
+			}
+		}
+		return true
+	})
+	bad := false
+	ast.Inspect(then, func(n ast.Node) bool {
+		id, ok := n.(*ast.Ident)
+		if !ok || id.Name == errName {
+			return true
+		}
+		o := pk.TypesInfo.Uses[id]
+		if o == nil {
+			return true
+		}
+		if o.Parent() != pk.Types.Scope() && o.Parent() != types.Universe && o.Pkg() == pk.Types {
+			if _, isPkgName := o.(*types.PkgName); !isPkgName && declared[id.Name] {
+				// a local of the caller (or a field/method, which have no parent scope issue)
+				if _, isVar := o.(*types.Var); isVar && !o.(*types.Var).IsField() {
+					bad = true
+				}
+			}
+		}
+		return true
+	})
+	// a label or goto in the then-block cannot be duplicated
+	ast.Inspect(then, func(n ast.Node) bool {
+		switch x := n.(type) {
+		case *ast.LabeledStmt:
+			bad = true
+		case *ast.BranchStmt:
+			if x.Tok == token.GOTO {
+				bad = true
+			}
+		}
+		return true
+	})
+	return bad
 }
